@@ -35,3 +35,7 @@
 (declare-fun upN (String Int) String)        ; k-fold filepath.Dir
 (declare-fun topLevelStmt (Int) Bool)   ; the statement is one of those global type analysis pre-declared (C11)
 (declare-fun codeOf (Int) Int)   ; code pointer of a function value (reflect.Value.Pointer)
+(declare-fun osExpandOp (String Int) String)   ; os.Expand(s, mapping)
+(declare-fun closureAt (Int) Int)              ; the function literal at this source line of the unit's file
+(declare-const hostGetenv Int)                 ; os.Getenv (the host environment)
+(declare-fun existsAt (Int String) Bool)   ; fs.Stat succeeds on this path of this file system
